@@ -629,3 +629,190 @@ def _compute_unit(k):
 U_COMPUTE_1 = _compute_unit(1)
 U_COMPUTE_2 = _compute_unit(2)
 U_COMPUTE_3 = _compute_unit(3)
+
+
+# ==============================================================================  C16: D2O contrast matching
+
+SLD_RE = z3.Function("sld_of_re", z3.IntSort(), z3.RealSort())
+SLD_IM = z3.Function("sld_of_im", z3.IntSort(), z3.RealSort())
+SLD_INC = z3.Function("sld_of_inc", z3.IntSort(), z3.RealSort())
+
+
+def sld_triple(tag):
+    t = z3.IntVal(tag)
+    return VTuple([SLD_RE(t), SLD_IM(t), SLD_INC(t)])
+
+
+def c_d2o_slds(interp, st, args, kw):
+    """_D2O_slds(compound, **kw) -> (H2O_sld, D2O_sld, Hsld, Dsld): four SLD triples (unit _D2O_slds)"""
+    return VTuple([sld_triple(1), sld_triple(2), sld_triple(3), sld_triple(4)])
+
+
+def _mix_inputs(st, interp):
+    a = VTuple([st.fresh("a%d" % i, z3.RealSort()) for i in range(3)])
+    b = VTuple([st.fresh("b%d" % i, z3.RealSort()) for i in range(3)])
+    f = st.fresh("fraction", z3.RealSort())
+    return [a, b, f], {}, {"a": a, "b": b, "f": f}
+
+
+def _mix_post(st, interp, C, res):
+    if res.outcome == "raise":
+        st.oblige("never-raises", False, kind="raises")
+        return
+    v = res.value
+    ok = isinstance(v, VTuple) and len(v.items) == 3
+    st.oblige("post.shape", z3.BoolVal(ok))
+    if ok:
+        for j in range(3):
+            st.oblige("post.component %d == a*fraction + b*(1-fraction)" % j,
+                      R(v.items[j]) == C["a"].items[j] * C["f"] + C["b"].items[j] * (1 - C["f"]))
+
+
+U_MIX_VALUES = Unit("mix_values", NSF + ".mix_values", _mix_inputs, _mix_post, replay={"module": "c16", "task": "replay"})
+
+
+def _d2osld_inputs(st, interp):
+    vf = st.fresh("volume_fraction", z3.RealSort())
+    d = st.fresh("D2O_fraction", z3.RealSort())
+    return [st.fresh("compound", z3.IntSort())], {"volume_fraction": vf, "D2O_fraction": d}, {"vf": vf, "d": d}
+
+
+def _d2osld_post(st, interp, C, res):
+    if res.outcome == "raise":
+        st.oblige("never-raises", False, kind="raises")
+        return
+    v = res.value
+    ok = isinstance(v, VTuple) and len(v.items) == 3
+    st.oblige("post.shape", z3.BoolVal(ok))
+    if not ok:
+        return
+    vf, d = C["vf"], C["d"]
+    H2O, D2O, H, D = (sld_triple(i).items for i in (1, 2, 3, 4))
+    for j, nm in enumerate(("real", "imaginary", "incoherent")):
+        solute = d * D[j] + (1 - d) * H[j]
+        solvent = d * D2O[j] + (1 - d) * H2O[j]
+        st.oblige("post.%s == vf*(d*Dsld+(1-d)*Hsld) + (1-vf)*(d*D2O+(1-d)*H2O)" % nm,
+                  R(v.items[j]) == vf * solute + (1 - vf) * solvent)
+        st.oblige("post.%s at volume fraction 1 is the substituted compound's mix" % nm,
+                  z3.Implies(vf == 1, R(v.items[j]) == solute))
+        st.oblige("post.%s at volume fraction 0 is the H2O/D2O solvent mix" % nm,
+                  z3.Implies(vf == 0, R(v.items[j]) == solvent))
+
+
+U_D2O_SLD = Unit("D2O_sld", NSF + ".D2O_sld", _d2osld_inputs, _d2osld_post,
+                 contracts={NSF + "._D2O_slds": c_d2o_slds}, inline={NSF + ".mix_values"},
+                 replay={"module": "c16", "task": "replay"})
+
+
+def _match_inputs(st, interp):
+    H2O, D2O, H, D = (sld_triple(i).items for i in (1, 2, 3, 4))
+    st.assume(D[0] - H[0] + H2O[0] - D2O[0] != 0)       # a match point exists
+    return [st.fresh("compound", z3.IntSort())], {}, {}
+
+
+def _match_post(st, interp, C, res):
+    if res.outcome == "raise":
+        st.oblige("never-raises-when-a-match-point-exists", False, kind="raises", info={"exc": res.exc})
+        return
+    v = res.value
+    ok = isinstance(v, VTuple) and len(v.items) == 2
+    st.oblige("post.shape", z3.BoolVal(ok))
+    if not ok:
+        return
+    d, m = R(v.items[0]), R(v.items[1])
+    H2O, D2O, H, D = (sld_triple(i).items for i in (1, 2, 3, 4))
+    solute = d * D[0] + (1 - d) * H[0]
+    solvent = d * D2O[0] + (1 - d) * H2O[0]
+    st.oblige("post.at the match fraction solute and solvent real SLD coincide (solution SLD independent of volume fraction)",
+              solute == solvent)
+    vf = st.fresh("vf", z3.RealSort())
+    vf2 = st.fresh("vf2", z3.RealSort())
+    st.oblige("post.solution real SLD is the same for every volume fraction",
+              vf * solute + (1 - vf) * solvent == vf2 * solute + (1 - vf2) * solvent)
+    st.oblige("post.reported match SLD is that common value", m == solute)
+
+
+U_D2O_MATCH = Unit("D2O_match", NSF + ".D2O_match", _match_inputs, _match_post,
+                   contracts={NSF + "._D2O_slds": c_d2o_slds}, inline={NSF + ".mix_values"},
+                   replay={"module": "c16", "task": "replay"})
+
+
+def lemma_substitution_linear():
+    """Replacing a portion d of the labile hydrogens by D and the rest by natural H at fixed cell
+    volume gives real SLD d*sld(D form) + (1-d)*sld(H form).  With rho_re = 10 N Re(b),
+    N b = (rho N_A / (M 1e24)) * sum n_k b_k, and rho/M invariant under substitution
+    (_isotope_substitution: rho' M == rho M'), the SLD is linear in the counts."""
+    st = State()
+    c, S0, nL, bH, bD, d = z3.Reals("c S0 nL bH bD d")     # c = 10 rho N_A/(M 1e24), S0 = sum over the other atoms
+    def sld(frac):
+        return c * (S0 + nL * (frac * bD + (1 - frac) * bH))
+    st.oblige("real-sld-linear-in-d", sld(d) == d * sld(1) + (1 - d) * sld(0), kind="lemma", assume_after=False)
+    # imaginary part: |.| is linear when every Im b has the same sign (closed data fact, checked natively)
+    iH, iD, I0 = z3.Reals("iH iD I0")
+    st.assume(z3.And(iH <= 0, iD <= 0, I0 <= 0, nL >= 0, d >= 0, d <= 1, c >= 0))
+    def ab(x):
+        return z3.If(x >= 0, x, -x)
+    def sldi(frac):
+        return c * ab(I0 + nL * (frac * iD + (1 - frac) * iH))
+    st.oblige("imaginary-sld-linear-in-d-for-d-in-[0,1]", sldi(d) == d * sldi(1) + (1 - d) * sldi(0), kind="lemma", assume_after=False)
+    # cell volume kept:  rho' M == rho M'  =>  rho'/M' == rho/M
+    rho, M, rho2, M2 = z3.Reals("rho M rho2 M2")
+    st.assume(z3.And(M > 0, M2 > 0, rho > 0, rho2 * M == rho * M2))
+    st.oblige("cell-volume-kept", rho2 / M2 == rho / M, kind="lemma", assume_after=False)
+    return [st]
+
+
+L_SUBSTITUTION_LINEAR = Lemma("D2O.substitution-is-linear-mixing", lemma_substitution_linear)
+
+
+# fasta.Molecule.D2Osld and fasta.D2Omatch against nsf.D2O_sld / D2O_match
+FASTA = "periodictable.fasta"
+
+
+_H2O_SLD, _D2O_SLD = z3.Real("fasta.H2O_SLD"), z3.Real("fasta.D2O_SLD")
+
+
+def _fmatch_inputs(st, interp):
+    h, dd = st.fresh("Hsld", z3.RealSort()), st.fresh("Dsld", z3.RealSort())
+    h2o, d2o = _H2O_SLD, _D2O_SLD
+    st.assume(dd - h + h2o - d2o != 0)
+    return [h, dd], {}, {"h": h, "d": dd, "h2o": h2o, "d2o": d2o}
+
+
+def _fmatch_post(st, interp, C, res):
+    if res.outcome == "raise":
+        st.oblige("never-raises-when-a-match-point-exists", False, kind="raises")
+        return
+    frac = (C["h2o"] - C["h"]) / (C["d"] - C["h"] + C["h2o"] - C["d2o"])
+    st.oblige("post.fasta.D2Omatch == 100 * (the fraction nsf.D2O_match computes from the same four SLDs)",
+              R(res.value) == 100 * frac)
+
+
+def _fasta_env(st_names):
+    return {}
+
+
+U_FASTA_MATCH = Unit("fasta.D2Omatch", FASTA + ".D2Omatch", _fmatch_inputs, _fmatch_post,
+                     env={(FASTA, "H2O_SLD"): _H2O_SLD, (FASTA, "D2O_SLD"): _D2O_SLD},
+                     replay={"module": "c16", "task": "replay"})
+
+
+def _fsld_inputs(st, interp):
+    sld, dsld = st.fresh("sld", z3.RealSort()), st.fresh("Dsld", z3.RealSort())
+    self = VObj((FASTA, "Molecule"), {"sld": sld, "Dsld": dsld})
+    vf, d = st.fresh("volume_fraction", z3.RealSort()), st.fresh("D2O_fraction", z3.RealSort())
+    return [self], {"volume_fraction": vf, "D2O_fraction": d}, {"sld": sld, "dsld": dsld, "vf": vf, "d": d}
+
+
+def _fsld_post(st, interp, C, res):
+    if res.outcome == "raise":
+        st.oblige("never-raises", False, kind="raises")
+        return
+    vf, d = C["vf"], C["d"]
+    want = vf * (d * C["dsld"] + (1 - d) * C["sld"]) + (1 - vf) * (d * _D2O_SLD + (1 - d) * _H2O_SLD)
+    st.oblige("post.Molecule.D2Osld is the same mix as the real part of nsf.D2O_sld", R(res.value) == want)
+
+
+U_FASTA_D2OSLD = Unit("fasta.Molecule.D2Osld", FASTA + ".Molecule.D2Osld", _fsld_inputs, _fsld_post,
+                      env={(FASTA, "H2O_SLD"): _H2O_SLD, (FASTA, "D2O_SLD"): _D2O_SLD},
+                      replay={"module": "c16", "task": "replay"})
